@@ -1,5 +1,6 @@
 import Noodles.Basic.Wire
 import Noodles.Cram.IndexModel
+import Noodles.Cram.DriverC19More
 /-! Line-protocol handler for the CRAM index / query model (`c19 …`).
 
     c19 layout <rps> <spc> <recs>                  → per container `ctx#n/ctx#n+ctx#n|…` or err:invalid-input
@@ -76,6 +77,6 @@ def handleC19 : List String → String
       | some rs => s!"recs={fmtIds (rs.map (·.id))}"
       | none => "err:other"
     | _, _, _, _ => "bad-op"
-  | _ => "bad-op"
+  | ws => handleC19More ws
 
 end Noodles.Cram.Index
